@@ -41,6 +41,10 @@ def to_difference_form(v):
 def run(ctx):
     rules.potential_kernels(ctx)
     guards.factory_guards(ctx, "potential")
+    # purely imaginary wavenumbers are handed to the modified Helmholtz factories: which sibling, with which arguments
+    from . import c05
+
+    c05.dispatch(ctx)
     reg = K.registries(ctx)["kernel_functions_regular"]
     vals = rules.kernel_specs(ctx, ("laplace", "helmholtz", "modified_helmholtz"), include_singular=False)
     r_tr = ctx.rule("K-TRANSLATION", "Green's function kernels depend on the points only through y - x", 9)
